@@ -115,13 +115,17 @@ Qed.
 Lemma apply_all_app' t a b : apply_all t (a ++ b) = apply_all (apply_all t a) b.
 Proof. unfold apply_all. apply fold_left_app. Qed.
 
-Lemma apply_del_actions t (keys : list str) :
-  t_v2 (apply_all t (flat_map del_action keys)) =
+Lemma del_reg_v2_only c k :
+  Forall (fun a => match a with AUpd _ _ | ADel _ | AClear => False | _ => True end) (if N.eqb c 0 then [] else reg_del k).
+Proof. destruct (N.eqb c 0); [constructor|apply reg_del_v2_only]. Qed.
+
+Lemma apply_del_actions t c (keys : list str) :
+  t_v2 (apply_all t (flat_map (del_action c) keys)) =
   fold_left (fun acc x => kv_del x acc) (filter (fun k => negb (starts_with s_SYS_prefix k)) keys) (t_v2 t).
 Proof.
   revert t. induction keys as [|k keys IH]; intros t; [reflexivity|]. cbn [flat_map filter].
   unfold del_action at 1. destruct (starts_with s_SYS_prefix k); cbn [negb].
-  - rewrite apply_all_app', IH. now rewrite (apply_all_v2_only _ _ (reg_del_v2_only k)).
+  - rewrite apply_all_app', IH. now rewrite (apply_all_v2_only _ _ (del_reg_v2_only c k)).
   - cbn [app]. unfold apply_all in *. cbn [fold_left apply_action]. rewrite IH. reflexivity.
 Qed.
 
@@ -150,7 +154,7 @@ Proof.
     + destruct H as (p & e & Hp & Habs & _ & HI' & Hm). split; [exact HI'|].
       intros k2 p2 Hp2 Hpre2. unfold abs in *. rewrite (Hm p2). unfold m_del, del_action.
       destruct (starts_with s_SYS_prefix k) eqn:Epre.
-      * rewrite (apply_all_v2_only _ _ (reg_del_v2_only k)).
+      * rewrite (apply_all_v2_only _ _ (del_reg_v2_only c k)).
         destruct (path_eqb_spec p p2) as [->|Hne]; [exfalso; pose proof (key_path_inj k k2 p2 p2 Hp Hp2 eq_refl) as ->; congruence|now apply HT].
       * unfold apply_all. cbn [fold_left apply_action t_v2].
         destruct (path_eqb_spec p p2) as [->|Hne].
@@ -162,7 +166,7 @@ Proof.
     destruct (o_res (snd (do_pdelete s c false pat))) eqn:Er; try contradiction.
     + destruct H as (HI' & Hm & Hl). split; [exact HI'|].
       intros k2 p2 Hp2 Hpre2. unfold abs in *. rewrite (Hm p2). unfold m_pdel.
-      replace (flat_map (fun kv : str * json => del_action (fst kv)) l) with (flat_map del_action (map fst l))
+      replace (flat_map (fun kv : str * json => del_action c (fst kv)) l) with (flat_map (del_action c) (map fst l))
         by (clear; induction l as [|x l IH]; cbn; [reflexivity|now rewrite IH]).
       rewrite apply_del_actions, kv_get_fold_del.
       destruct (parse_segments_good _ _ Hp2) as (Hsp & Hg2 & Hne2).
